@@ -19,14 +19,18 @@ namespace {
 int depthOf(const Expr& e) { int d = 0; for (auto& k : e.kids) d = std::max(d, depthOf(*k)); return d + 1; }
 bool hasKind(const Expr& e, std::initializer_list<TID> ids) { for (auto id : ids) if (e.id == id) return true; for (auto& k : e.kids) if (hasKind(*k, ids)) return true; return false; }
 
-Verdict typeWith(Ctx& c, bool scoping) {
+Verdict typeWith(Ctx& c, bool scoping, bool templates = false) {
   TypedGen g(c);
   g.optReuseNames = scoping;  // binders re-declare names whose earlier scope has ended, at any depth
+  g.optRichTemplates = templates;
   g.makeContext();
   if (c.coin()) { Global a; a.name = "A1"; a.type = Ty::Logic(); g.G.globals.push_back(a); }
-  const int shape = c.ipick(0, 9);  // 0-5 plain, 6-7 function definition, 8 global definition, 9 structure declaration
+  const int shape = templates ? 10 : c.ipick(0, 9);  // 0-5 plain, 6-7 function definition, 8 global definition, 9 structure declaration, 10 template call
   EP e;
-  if (shape <= 5 || shape == 8) {
+  if (shape == 10) {
+    e = g.makeCall(c.oneof(g.G.funcs), {}, c.ipick(1, 3));
+    if (c.chance(1, 3)) e = mk(TID::PUNC_DEFINE, {mkName(TID::ID_GLOBAL, "D99"), e});
+  } else if (shape <= 5 || shape == 8) {
     const int rootKind = c.ipick(0, 9);
     const Ty target = rootKind < 4 ? Ty::Logic() : rootKind < 8 ? Ty::Set(g.randType(2)) : g.randType(2);
     e = target.k == Ty::LOGIC ? g.genLogic(c.ipick(1, 3)) : g.genTerm(target, c.ipick(1, 3));
@@ -113,6 +117,7 @@ Verdict typeWith(Ctx& c, bool scoping) {
 
 Verdict typeProp(Ctx& c) { return typeWith(c, false); }
 Verdict scopingProp(Ctx& c) { return typeWith(c, true); }
+Verdict templateProp(Ctx& c) { return typeWith(c, false, true); }
 
 }  // namespace
 
@@ -120,5 +125,6 @@ int main(int argc, char** argv) {
   std::vector<pbt::Prop> props;
   props.push_back({"verdict_and_type", typeProp, 6000, 100000, false, false, "generated + mutated expressions vs the reference typing judgment"});
   props.push_back({"scoping", scopingProp, 3000, 50000, false, false, "expressions whose binders re-declare names of ended scopes (at any nesting depth), mostly with one occurrence of a local renamed to another local of the tree: in scope with another type, or out of scope"});
+  props.push_back({"template_calls", templateProp, 2500, 40000, false, false, "calls of term / predicate functions whose parameter types are tuples, sets of tuples and nested sets over radicals shared between parameters and result; half of them mutated"});
   return pbt::main(argc, argv, "C03", props);
 }
